@@ -53,6 +53,11 @@ def configs(tier):
                 yield dict(name="real-%s-%s-%s" % (be, fn, "".join(map(str, ns))), what="real", backend=be, fn=fn,
                            ns=list(ns), fork=fn.startswith("spike_pro") or fn.startswith("spike_dist"),
                            cost=30 * 8 ** sum(ns), validate=2, split_forks=(7 if sum(ns) >= 3 else None))
+                if not (fn.startswith("spike_pro") or fn.startswith("spike_dist")) and sum(ns) <= 3:
+                    # MRTS='auto' must be honoured identically through every call form
+                    yield dict(name="real-auto-%s-%s-%s" % (be, fn, "".join(map(str, ns))), what="real", backend=be,
+                               fn=fn, ns=list(ns), auto=True, cost=60 * 8 ** sum(ns), validate=2,
+                               split_forks=(7 if sum(ns) >= 3 else None))
 
 
 def controls(tier):
@@ -128,7 +133,7 @@ def program(E, cfg):
         S = [hx.spikes(E, "abc"[k], n, ts, te) for k, n in enumerate(cfg["ns"])]
         L = [hx.train(s, ts, te) for s in S]
         for idx in ([2, 0], [1, 2], [2, 1, 0], [1, 0, 2]):
-            call_forms(E, f, L, idx, {}, star)
+            call_forms(E, f, L, idx, {"MRTS": "auto"} if cfg.get("auto") else {}, star)
         E.observe("done", 1)
         return
     K = cfg["K"]
